@@ -289,16 +289,36 @@ def r4(ctx):
     ch = ctx.fn("connection:ServerClientConnection._recvClientHello")
     es = calls_named(ch, "ecdh_server")
     ctx.expect("C02.R4", "ecdh_server call", len(es), 1)
-    p = es[0]._parent
-    tg = [norm(e) for e in p.targets[0].elts] if isinstance(p, ast.Assign) and isinstance(p.targets[0], ast.Tuple) else []
-    ctx.check(tg == ["self.session_salt", "self.session_key_bytes"], "C02.R4", ch, "(session_salt, session_key_bytes) := ecdh_server(...)",
-              "the server adopts the derived key and remembers the salt", witness=tg)
-    ctx.check([norm(a) for a in es[0].args][0] == "self.session_key" and norm(es[0].args[1]).endswith(".client_pubkey"), "C02.R4", ch,
-              "ecdh_server(own ephemeral key, client public key)", "arguments", witness=[norm(a) for a in es[0].args])
-    rs = [n for n in walk_own(ch.node) if isinstance(n, ast.Assign) and isinstance(n.targets[0], ast.Attribute) and n.targets[0].attr in ("salt", "server_pubkey", "token") and norm(n.targets[0].value) != "self"]
-    got = {n.targets[0].attr: norm(n.value) for n in rs}
-    ctx.check(got == {"salt": "self.session_salt", "server_pubkey": "self.session_key.getPublicKey()", "token": "self.token"}, "C02.R4", ch,
-              "reply carries the salt used, the ephemeral public key and the issued token", "reply fields", witness=got)
+    # by value: on every path that calls ecdh_server, the attributes and the reply fields hold the elements of that one call
+    # (however they travel: tuple unpacking into the attributes, through temporaries, or read back from the attributes)
+    from .common import sym_paths
+    paths = sym_paths(ch)
+    if paths is None:
+        ctx.undecided("C02.R4", ch, "_recvClientHello is outside the straight-line fragment: the flow of the derived key cannot be followed")
+        return
+    live = [(c, env, r) for (c, env, r) in paths if "ecdh_server(" in " ".join(env.values())]
+    ctx.check(len(live) >= 1, "C02.R4", ch, "a path of _recvClientHello calls ecdh_server")
+    for (c, env, r) in live:
+        def elem(text, i):
+            try:
+                e = ast.parse(text, mode="eval").body
+            except SyntaxError:
+                return None
+            if isinstance(e, ast.Subscript) and isinstance(e.slice, ast.Constant) and e.slice.value == i and isinstance(e.value, ast.Call) and norm(e.value.func).endswith("ecdh_server"):
+                return e.value
+            return None
+        c0, c1 = elem(env.get("self.session_salt", ""), 0), elem(env.get("self.session_key_bytes", ""), 1)
+        ok = c0 is not None and c1 is not None and norm(c0) == norm(c1)
+        ctx.check(ok, "C02.R4", ch, "(session_salt, session_key_bytes) := ecdh_server(...)",
+                  "the server adopts the derived key and remembers the salt", witness={k: env.get(k) for k in ("self.session_salt", "self.session_key_bytes")})
+        if ok:
+            args = [norm(a) for a in c1.args]
+            ctx.check(len(args) == 2 and args[0] == "self.session_key" and args[1].endswith(".client_pubkey"), "C02.R4", ch,
+                      "ecdh_server(own ephemeral key, client public key)", "arguments", witness=args)
+        got = {k.rsplit(".", 1)[1]: v for k, v in env.items() if "." in k and k.rsplit(".", 1)[1] in ("salt", "server_pubkey", "token") and not k.startswith("self.")}
+        want = {"salt": env.get("self.session_salt"), "server_pubkey": "self.session_key.getPublicKey()", "token": env.get("self.token")}
+        ctx.check(got == want and want["token"] is not None, "C02.R4", ch,
+                  "reply carries the salt used, the ephemeral public key and the issued token", "reply fields", witness=got)
     dm = calls_named(ch, "dumpb")
     ok = len(dm) == 1 and {k.arg: norm(k.value) for k in dm[0].keywords} == {"server_root_key": "self.ctxt.server_root_key"}
     ctx.check(ok, "C02.R4", ch, "reply signed with the context's root key", "dumpb(server_root_key=self.ctxt.server_root_key)")
@@ -345,7 +365,7 @@ def r5(ctx):
         ok = False
         if isinstance(n.ast.value, ast.Constant) and n.ast.value.value is True:
             for (t, pol) in vcfg.conditions_of(n.id):
-                if pol and isinstance(t, ast.Compare) and len(t.ops) == 1 and isinstance(t.ops[0], ast.Eq):
+                if isinstance(t, ast.Compare) and len(t.ops) == 1 and ((pol and isinstance(t.ops[0], ast.Eq)) or (not pol and isinstance(t.ops[0], ast.NotEq))):
                     sides = {norm(t.left), norm(t.comparators[0])}
                     other = [s for s in sides if s.endswith(".token")]
                     if tparam in sides and other:
